@@ -9,7 +9,7 @@ from props.C10 import sx
 from props.C08 import MODES, MODEL_CAP, MODELLED as C08_MODELLED
 
 ID = "C09"
-THEOREMS = []
+THEOREMS = ["C09_sound", "C09_accepted_is_wellformed", "C09_delta_exact_length"]
 MODEL_FILES = ["PackBytes.v", "Idx.v", "PackParse.v"]
 MODELLED = C08_MODELLED + "; C09 uses the error paths of the same model (every Go error is the class `reject`)"
 TRUSTED = [
@@ -171,7 +171,7 @@ class Main(Suite):
     name = "main"
     go_cmd = "c08"
     coq_imports = "From GoGit Require Import Model.PackParse."
-    quick_n = 90
+    quick_n = 80
     thorough_n = 1500
     coq_chunk = 8
 
